@@ -321,8 +321,10 @@ class Inliner:
                                     return new
                                 blk = self._inline_stmt_body(hfn, binding, caller_names, build)
                                 for b_ in blk:
-                                    ast.copy_location(b_, st)
-                                    ast.fix_missing_locations(b_)
+                                    for sub_ in ast.walk(b_):
+                                        if hasattr(sub_, "lineno") or isinstance(sub_, (ast.stmt, ast.expr)):
+                                            sub_.lineno, sub_.col_offset = st.lineno, st.col_offset
+                                            sub_.end_lineno, sub_.end_col_offset = getattr(st, "end_lineno", st.lineno), getattr(st, "end_col_offset", st.col_offset)
                                 out.extend(blk)
                                 self.inlined.append((fn.name, hfn.name))
                                 did = True
@@ -382,6 +384,10 @@ class Inliner:
                     return node
                 new = _Subst(binding, {}).visit(copy.deepcopy(e))
                 inl.inlined.append(("<expr>", hfn.name))
+                for sub_ in ast.walk(new):            # the inlined expression lives at the call site
+                    if hasattr(sub_, "lineno"):
+                        sub_.lineno, sub_.col_offset = node.lineno, node.col_offset
+                        sub_.end_lineno, sub_.end_col_offset = getattr(node, "end_lineno", node.lineno), getattr(node, "end_col_offset", node.col_offset)
                 return ast.copy_location(new, node)
         # only the statement's own expressions, not nested statements
         for fld, val in list(ast.iter_fields(st)):
